@@ -43,11 +43,8 @@ def run(ctx):
         lib.must_pass(ctx, '1c process_commits-wakes-flush-worker', pc, sg, 'after a record was logged, every success path signals flush_worker_wait', sources=er)
     pr = ctx.body('db::DbInner::process_reindex')
     if pr:
-        er = pr.call_sites('log::Log::end_record')
-        sg = sites_on(pr, SIGNAL, '.DbInner.flush_worker_wait')
-        ctx.ob('1d process_reindex-anchors', 'anchor', pr.path, 'process_reindex logs records in two arms', len(er) == 2, str(er))
-        for i, e in enumerate(er):
-            lib.must_pass(ctx, '1e reindex-record-wakes-flush-worker #%d' % i, pr, sg, 'after a reindex record was logged, every success path signals flush_worker_wait', sources=[e])
+        lib.paired_after(ctx, '1e reindex-record-wakes-flush-worker', F, pr.path, ['log::Log::end_record'], SIGNAL, '.DbInner.flush_worker_wait',
+                         'after a reindex record was logged, every success path signals flush_worker_wait')
     fl = ctx.body('db::DbInner::flush_logs')
     if fl:
         fo = fl.call_sites('log::Log::flush_one')
@@ -178,11 +175,12 @@ def run(ctx):
     # ---------------------------------------------------------------- 4. worker results observed
     oi = ctx.body('db::Db::open_inner')
     if oi:
-        sp = [bi for bi, t in oi.calls() if call_matches(t, ['re:^std::thread::spawn'])]
+        # spawn sites in open_inner, its closures (`cond.then(|| thread::spawn(..))`) and helpers extracted from it
+        sp = lib.fam_sites(F, oi.path, ['re:^std::thread::spawn', 're:thread::Builder.*::spawn'])
         workers = {'db::Db::commit_worker', 'db::Db::flush_worker', 'db::Db::log_worker', 'db::Db::cleanup_worker'}
         seen = set()
-        for i, s in enumerate(sp):
-            cls = lib.closure_operands(oi, oi.term(s))
+        for i, (sb, s) in enumerate(sp):
+            cls = lib.closure_operands(sb, sb.term(s))
             ok = False
             det = 'no closure'
             for c in cls:
@@ -197,7 +195,7 @@ def run(ctx):
                 else:
                     det = 'store_err sites %s worker calls %s' % (se_sites, wk)
             ctx.ob('4a worker-result-stored #%d' % i, 'K6a-result-observed', oi.path, 'the spawned closure passes the worker result to store_err on every path (a worker that dies silently leaves committers throttled forever)', ok, det, oi.loc(s))
-        ctx.ob('4b four-workers', 'anchor', oi.path, 'four threads are spawned, one per worker function', len(sp) == 4 and seen == workers, 'spawns %d workers %s' % (len(sp), sorted(seen)))
+        ctx.ob('4b four-workers', 'anchor', oi.path, 'a thread is spawned for each of the four worker functions', len(sp) >= 1 and seen == workers, 'spawns %d workers %s' % (len(sp), sorted(seen)))
 
     # ---------------------------------------------------------------- 5. lock-order graph
     edges, modes, comps, bad, bad_self = lockorder.analyse(F)
